@@ -26,7 +26,7 @@ def run(rep):
     rep.cov["rule"] = ("type corpus as for C02 restricted to what plugin/hash supports x every pool value, every single-position "
                        "mutation, and for every pool value its equality-preserving variants (fresh addresses, other spare capacity, "
                        "reversed map insertion order, +0<->-0) as hasheq pairs, plus all pool pairs")
-    rep.assumptions += ["sort.* sorts map keys correctly", "user-declared Hash methods are not in the corpus", "NaN-free values",
+    rep.assumptions += ["sort.* sorts map keys correctly", "user-declared Equal/Hash methods: Equal => same hash is checked where every reachable type that declares Equal also declares Hash (UE1); a type declaring only a coarser Equal (UE2) breaks it by the user's own doing and is compared against the model only", "NaN-free values",
                         "purity / repeatability of the emitted function are observed by the tie (a Lean function is pure by construction)"]
     common.proof_part(rep, "C04", thorough_checker=(rep.tier == "thorough"))
     info = common.prepare_corpus(rep.tier, rep.seed, PLUGINS)
